@@ -224,6 +224,8 @@ MIXED_FIRST = [("stream", a) for a in (1, 2, 3, 7)] + [("read_chunked", a) for a
 MIXED_REST = [("stream", 3), ("stream", None), ("read_chunked", 2), ("read_chunked", None), ("read", None), ("read", 2), ("read1", 3),
               ("iter", None)]
 MIXED = [(f, k, rest) for f in MIXED_FIRST for k in (1, 2) for rest in MIXED_REST]
+MIXED_QUICK = [(f, k, rest) for f in (("stream", 2), ("stream", 7), ("read_chunked", 1), ("read_chunked", 3)) for k in (1, 2) for rest in MIXED_REST]
+_TIER = {"thorough": False}
 
 
 def run_mixed(segs, prog, dc, expected, chunked):
@@ -311,7 +313,7 @@ def _task(t):
         else:
             acc.outcomes["ok-seq-%d" % len(prog)] += 1
     if with_single:
-        for prog in MIXED:
+        for prog in ((MIXED if _TIER["thorough"] else MIXED_QUICK) if with_single != "nomix" else ()):
             b = run_mixed(segs, prog, dc, expected, chunked)
             if b == "skip":
                 continue
@@ -355,7 +357,8 @@ def plan(thorough):
             ml = 2 if dc else 1
         tasks.append((s, ml, True))
     for s in split_specs(thorough):
-        tasks.append((s, 1 if not thorough else 2, True))
+        # quick tier: the mixed generator programs run on the main response set only
+        tasks.append((s, 1 if not thorough else 2, True if thorough else "nomix"))
     # deepest programs on a reduced response set
     deep = 4 if thorough else 3
     for size in (5, 70):
@@ -367,6 +370,7 @@ def plan(thorough):
 
 
 def run(ctx):
+    _TIER["thorough"] = ctx.thorough
     tasks = plan(ctx.thorough)
     acc = ctx.gather(_task, tasks)
     responses = acc.counters["responses"]
